@@ -159,6 +159,12 @@ class World:
         else:
             exp = ev["expect"]
             ev["sync"] = exp in (None, "either") or (exp == "accept") == ev["accepted"]
+            if exp in ("accept", "either") and not ev["accepted"] and not ev["exc"]["ldap"] and ev["exc"]["type"] in ("UnicodeEncodeError",):
+                # argument error (a str that cannot be encoded): the call fails before anything is sent; not a refusal by
+                # the state machine and not a verdict about it - the model treats it as a call without effect
+                ev["arg_error"] = True
+                ev["expect"] = exp = "refuse"
+                ev["sync"] = True
             if ev["sync"] and exp is not None:
                 okret = True
                 if ev["accepted"] and se.role == "c" and m != "unbind" and not isinstance(ev["ret"], int):
@@ -376,6 +382,26 @@ class World:
             cp.search_result_entry(mid, "", [])
             cp.bind_response(mid, result_code=sansldap.LDAPResultCode.SASL_BIND_IN_PROGRESS)
             return True
+        except Exception:  # noqa: BLE001
+            return False
+
+    def probe_client_idle(self, who):
+        """Client: no operation in progress <=> a new bind is accepted (asked of a deep copy)."""
+        cp = self.clone(who)
+        try:
+            cp.bind_simple()
+            return True
+        except Exception:  # noqa: BLE001
+            return False
+
+    def probe_server_idle(self, who):
+        """Server: nothing outstanding <=> a BindRequest is accepted (asked of a deep copy)."""
+        cp = self.clone(who)
+        data = rfc4511.enc_msg({"t": "BindRequest", "id": 2000000000, "controls": [], "version": 3, "name": "",
+                                "auth": {"t": "Simple", "password": ""}})
+        try:
+            r = cp.receive(data)
+            return isinstance(r, list) and len(r) == 1
         except Exception:  # noqa: BLE001
             return False
 
